@@ -23,7 +23,8 @@ func VerifC07ConstructorRecycled() {
 		seed[i] = nondetU8()
 	}
 	dirty, fresh := NewCloner(EmptyClonerStat{}), NewCloner(EmptyClonerStat{})
-	prev := verifKindMsg(verifChoice(8), 2+verifChoice(3), seed, "client-a.example.")
+	kind, optKind := verifChoice(8), 2+verifChoice(3)
+	prev := verifKindMsg(kind, optKind, seed, "client-a.example.")
 	dirty.Dispose(dirty.Clone(prev))
 
 	var mode BlockingMode = &BlockingModeNullIP{}
@@ -75,6 +76,9 @@ func VerifC07ConstructorRecycled() {
 		return m
 	}
 	got, want := build(mk(dirty)), build(mk(fresh))
+	// the earlier message itself is still live (a cached answer, say): releasing its
+	// clone and building another client's response must not have changed it
+	verifAssert("live-message-unchanged-by-releasing-its-clone-and-constructing-a-response", verifMsgEq(prev, verifKindMsg(kind, optKind, seed, "client-a.example.")))
 	if got == nil || want == nil {
 		return
 	}
